@@ -131,8 +131,13 @@ class Filter(base.Filter):
                                         'form', 'h1', 'h2', 'h3', 'h4', 'h5', 'h6',
                                         'header', 'hr', 'menu', 'nav', 'ol',
                                         'p', 'pre', 'section', 'table', 'ul')
+            elif type == "EndTag":
+                # ... unless the parent is one of these (transparent/other
+                # content models in which the parser would re-nest the p)
+                return next["name"] not in ('a', 'audio', 'del', 'ins', 'map',
+                                            'noscript', 'video')
             else:
-                return type == "EndTag" or type is None
+                return type is None
         elif tagname == 'option':
             # An option element's end tag may be omitted if the option
             # element is immediately followed by another option element,
